@@ -165,6 +165,25 @@ def check(ctx):
             else:
                 r2.bad(V(r2.id, fid, "unpropagated:%s" % short_path(c.best),
                          "Result of filesystem-mutating step %s is not propagated: %s" % (c.best, how), c.file, c.line))
+    # a buffering writer reports late write errors only through flush()/into_inner(); its Drop discards them.  Every buffered writer built on
+    # the generation path must be flushed with a propagated result before it goes out of scope (expected count on this tree: zero writers)
+    n_buf = 0
+    for fid in sorted(scope | set(reach)):
+        f = P.fns.get(fid)
+        if f is None or "{promoted#" in fid:
+            continue
+        for c in f.calls:
+            if not (("BufWriter" in c.path or "LineWriter" in c.path) and c.name in ("new", "with_capacity")):
+                continue
+            n_buf += 1
+            fl = [d for d in f.calls if d.name in ("flush", "into_inner") and f.dominates(c.bb, d.bb)]
+            good = [d for d in fl if try_propagated(f, d)[0]]
+            if good:
+                r2.ok("%s: buffered writer flushed with a propagated result @%s" % (short_path(fid), good[0].where()))
+            else:
+                r2.bad(V(r2.id, fid, "buffered-writer-not-flushed", "a %s is created but never flushed with a propagated result: write errors surfacing at drop are discarded, the run reports success"
+                         % short_path(c.path), c.file, c.line))
+    r2.notes.append("buffered writers on the generation path: %d" % n_buf)
     r2.require_floor(8, "Result-returning filesystem-mutating call sites on the generation path")
     rules.append(r2)
 
